@@ -22,40 +22,52 @@ func (P *Prog) positionalDecoders() map[string]*ssa.Function {
 		if typeName(fn.Params[1].Type()) != "[]byte" {
 			continue
 		}
-		p := fn.Params[1]
-		positional := false
-		for _, r := range *p.Referrers() {
-			switch x := r.(type) {
-			case *ssa.Slice:
-				if x.Low != nil || x.High != nil {
-					positional = true
-				}
-			case *ssa.IndexAddr, *ssa.Index:
-				positional = true
-			case *ssa.Call:
-				n := calleeName(&x.Call)
-				if n == "bytes.NewReader" || n == "bytes.NewBuffer" {
-					positional = true // handed to binary.Read
-				}
-				if n == "builtin.len" {
-					for _, rr := range *x.Referrers() {
-						if b, ok := rr.(*ssa.BinOp); ok {
-							if _, isC := constInt(b.X); isC {
-								positional = true
-							}
-							if _, isC := constInt(b.Y); isC && (b.Op == token.NEQ || b.Op == token.LSS || b.Op == token.EQL || b.Op == token.GTR) {
-								positional = true
-							}
-						}
-					}
-				}
-			}
-		}
+		positional := P.positionalUse(fn.Params[1], 0)
 		if positional {
 			out[typeName(derefType(fn.Params[0].Type()))] = fn
 		}
 	}
 	return out
+}
+
+// positionalUse: the byte slice parameter is taken apart by position (sliced / indexed with bounds, compared in
+// length with a constant, handed to a binary.Read buffer) — here or in a repo function it is passed on to whole.
+func (P *Prog) positionalUse(p *ssa.Parameter, depth int) bool {
+	for _, r := range *p.Referrers() {
+		switch x := r.(type) {
+		case *ssa.Slice:
+			if x.Low != nil || x.High != nil {
+				return true
+			}
+		case *ssa.IndexAddr, *ssa.Index:
+			return true
+		case *ssa.Call:
+			n := calleeName(&x.Call)
+			if n == "bytes.NewReader" || n == "bytes.NewBuffer" {
+				return true // handed to binary.Read
+			}
+			if n == "builtin.len" {
+				for _, rr := range *x.Referrers() {
+					if b, ok := rr.(*ssa.BinOp); ok {
+						if _, isC := constInt(b.X); isC {
+							return true
+						}
+						if _, isC := constInt(b.Y); isC && (b.Op == token.NEQ || b.Op == token.LSS || b.Op == token.EQL || b.Op == token.GTR) {
+							return true
+						}
+					}
+				}
+			}
+			if h, ok := x.Call.Value.(*ssa.Function); ok && h.Blocks != nil && P.isRepoPkg(pkgOf(h)) && depth < 2 {
+				for j, a := range x.Call.Args {
+					if a == ssa.Value(p) && j < len(h.Params) && P.positionalUse(h.Params[j], depth+1) {
+						return true
+					}
+				}
+			}
+		}
+	}
+	return false
 }
 
 // concreteBelowInterface returns the static type of the value that was converted to an interface.
@@ -207,7 +219,7 @@ func checkC02(R *Run) {
 	// ---- preamble-read
 	for _, it := range []struct {
 		fn, decoder string
-		size    int64
+		size        int64
 	}{{"hotline.performHandshake", "(*hotline.handshake).Write", 12}, {"(*hotline.Server).handleFileTransfer", "(*hotline.transfer).Write", 16}} {
 		fn := R.mustFn(it.fn)
 		if fn == nil {
@@ -306,9 +318,9 @@ func (R *Run) checkSplit(sf *ssa.Function, construct string) {
 		return ok && calleeName(&c.Call) == "builtin.len" && c.Call.Args[0] == ssa.Value(data)
 	}
 	type bound struct {
-		e     Edge
-		val   ssa.Value // val <= len(data)
-		constK int64    // len(data) >= K
+		e      Edge
+		val    ssa.Value // val <= len(data)
+		constK int64     // len(data) >= K
 	}
 	var bounds []bound
 	factEdges(sf, func(e Edge, f Fact) {
